@@ -28,7 +28,9 @@ RULE = ("digraphs of 2..8 nodes (10 thorough): random multigraphs (parallel/anti
         "cancellation, counted as `partial_cancel`), and (12 %) gadgets s->a->b->t with side chains of increasing length that "
         "force 'use a->b, cancel it through b->a on a longer path, push a->b again on a still longer path' (capacities 1 "
         "or k, 1-3 gadgets, up to ~40 nodes; counted as `repush_after_cancel`); node labels include None, 0, '', (), "
-        "frozenset(), -1, 0.5 and tuples; non-trivial = the mirror made >= 2 augmentations or "
+        "frozenset(), -1, 0.5 and tuples; (8 %) numeric edge cases: huge odd capacities above 2**53 mixed with small "
+        "ones, integral floats as capacities, 10-60 unit routes next to a huge one (objective and flows compared "
+        "exactly as integers); non-trivial = the mirror made >= 2 augmentations or "
         "cancelled flow on a reverse arc; distinct by canonical (graph, source, sink)")
 FN = "max_flow"
 
@@ -268,7 +270,72 @@ def gen_repush(rng, big):
     return _finish(rng, n, arcs, s, t, shuffle_keys=rng.random() < 0.5)
 
 
+HUGE = [2 ** 53 + 1, 2 ** 53 + 3, 3 * 2 ** 53 + 1, 2 ** 60 + 7, 10 ** 18 + 3, 2 ** 64 + 1, 10 ** 30 + 7]
+
+
+def gen_numeric(rng, big):
+    """numeric edge: huge ODD capacities above 2**53 (no double holds them) mixed with small ones, integral floats
+    as capacities, and long augmenting sequences (many capacity-1 routes next to a huge one).  Python ints are
+    unbounded and the Lean model is over Int, so flow dict, objective and cut capacity must agree exactly."""
+    kind = rng.random()
+    if kind < 0.3:       # a chain of huge arcs (the smallest one is odd and huge) with small side arcs
+        k = rng.randint(1, 4)
+        n = k + 1 + rng.randint(0, 2)
+        arcs = [(i, i + 1, rng.choice(HUGE)) for i in range(k)]
+        for _ in range(rng.randint(0, 3)):
+            u, v = rng.sample(range(n), 2)
+            arcs.append((u, v, rng.choice([0, 1, 2, 5, rng.choice(HUGE)])))
+        s, t = 0, k
+    elif kind < 0.6:     # a small random multigraph, some capacities huge and odd
+        case_n = rng.choice([3, 4, 5, 6])
+        n = case_n
+        s, t = rng.sample(range(n), 2)
+        arcs = []
+        for u in range(n):
+            for v in range(n):
+                if u != v and rng.random() < 0.4:
+                    arcs.append((u, v, rng.choice(HUGE) if rng.random() < 0.5 else rng.randint(0, 6)))
+        inner = [x for x in range(n) if x not in (s, t)]
+        rng.shuffle(inner)
+        p = [s] + inner[:rng.randint(0, 2)] + [t]
+        arcs += [(p[i], p[i + 1], rng.choice(HUGE) + rng.choice([0, 2, 10])) for i in range(len(p) - 1)]
+        rng.shuffle(arcs)
+    elif kind < 0.8:     # many unit routes next to a huge one: a long augmenting sequence
+        k = rng.randint(10, 60 if big else 35)
+        s, t = 0, 1
+        arcs = []
+        nid = 2
+        for _ in range(k):
+            if rng.random() < 0.5:
+                arcs += [(s, nid, 1), (nid, t, rng.choice([1, 1, 2]))]
+            else:
+                arcs += [(s, nid, rng.choice([1, 3])), (nid, t, 1)]
+            nid += 1
+        h = rng.choice(HUGE)
+        arcs += [(s, nid, h), (nid, t, h + rng.choice([0, 0, 2]))]
+        nid += 1
+        if rng.random() < 0.5:
+            arcs.append((s, t, rng.choice(HUGE)))
+        n = nid
+        rng.shuffle(arcs)
+    else:                # capacities given as floats with integer values
+        n = rng.choice([3, 4, 5])
+        s, t = rng.sample(range(n), 2)
+        arcs = []
+        for u in range(n):
+            for v in range(n):
+                if u != v and rng.random() < 0.5:
+                    c = rng.randint(0, 6)
+                    arcs.append((u, v, float(c) if rng.random() < 0.7 else c))
+        arcs.append((s, t, float(rng.randint(1, 4))))
+        rng.shuffle(arcs)
+    return _finish(rng, n, arcs, s, t)
+
+
 def gen_case(rng, big):
+    r = rng.random()
+    if r < 0.08:
+        return gen_numeric(rng, big)         # fixed share (8 %) in both tiers
     r = rng.random()
     if r < 0.32:
         return gen_random(rng, big)
@@ -296,6 +363,10 @@ def edge_cases():
     yield {"graph": [["s", [["v", 2], ["a", 3]]], ["v", [["u", 2], ["b", 3]]], ["a", [["u", 3]]], ["u", [["t", 2], ["v", 1]]],
                      ["b", [["t", 3]]]], "source": "s", "sink": "t"}
     # a node labelled None in front of the sink / as the source / as the sink
+    # numeric edge: one arc of capacity 2**53 + 1 (not a double); float capacities with integer values
+    yield {"graph": [["s", [["t", 2 ** 53 + 1]]]], "source": "s", "sink": "t"}
+    yield {"graph": [["s", [["a", 2 ** 60 + 7], ["t", 1]]], ["a", [["t", 10 ** 18 + 3]]]], "source": "s", "sink": "t"}
+    yield {"graph": [["s", [["a", 2.0], ["t", 1.0]]], ["a", [["t", 3.0]]]], "source": "s", "sink": "t"}
     yield {"graph": [["s", [[None, 5]]], [None, [["t", 5]]]], "source": "s", "sink": "t"}
     yield {"graph": [[None, [["t", 5], ["a", 2]]], ["a", [["t", 2]]]], "source": None, "sink": "t"}
     yield {"graph": [["s", [["a", 2], [None, 2]]], ["a", [[None, 2]]]], "source": "s", "sink": None}
